@@ -585,7 +585,8 @@ class LogWorld:
     PREFIX = ROOT + "/log"
 
     def __init__(self, fs, rule, fields=None, share_init=None, tick=0.125, logger_kw=None,
-                 base="log", tag="x", share_name="mc.x"):
+                 base="log", tag="x", share_name="mc.x", more_logs=()):
+        """more_logs: further (base, rule, fields) logs of the same share in the same logger."""
         from ioflo.base import housing, logging as iologging, globaling
         from ioflo.aid.odicting import odict
         housing.House.Clear()
@@ -609,6 +610,12 @@ class LogWorld:
         self.log = iologging.Log(name=base, store=self.store, kind="text", rule=rule)
         self.log.addLoggee(tag=tag, loggee=share_name, fields=list(fields) if fields else None)
         self.logger.addLog(self.log)
+        self.logs = [self.log]
+        for base2, rule2, fields2 in more_logs:
+            log2 = iologging.Log(name=base2, store=self.store, kind="text", rule=rule2)
+            log2.addLoggee(tag=tag, loggee=share_name, fields=list(fields2) if fields2 else None)
+            self.logger.addLog(log2)
+            self.logs.append(log2)
         self.logger.resolve()
         self.sent = []
 
@@ -628,9 +635,9 @@ class LogWorld:
     def advance(self, n=1):
         self.store.changeStamp(self.store.stamp + n * self.tick)
 
-    def paths(self):
+    def paths(self, log=None):
         """[main, copy 01, copy 02, ...] as documented: root + two-digit index + ext."""
-        main = self.log.path
+        main = (log or self.log).path
         root, ext = _os.path.splitext(main)
         return [main] + ["%s%02d%s" % (root, k, ext) for k in range(1, self.logger.keep + 1)]
 
